@@ -35,6 +35,8 @@ RULE = (
     "ions (strict and lenient): refusing is fine, whatever is returned consists of built-in t"
     "ypes."
     " A 2050-row (thorough 4100-row) table through bulktable, table and a two-root bulk walk."
+    " The agent confirms a SET under another name (keys stay str); one wrapper hands out 7200"
+    "0 distinct OIDs."
 )
 ASSUMPTIONS = [
     "pythonisation per type: INTEGER/Counter/Gauge/Counter64 -> int, OCTET STRING/Opaque -> bytes, OID -> dotted str, IpAddress -> IPv4Address, TimeTicks -> timedelta(10 ms * t), NULL and exception markers -> None",
